@@ -1,0 +1,21 @@
+//go:build verif
+
+package server
+
+import (
+	"fmt"
+	"sort"
+)
+
+// VerifDump renders the frame output buffer in a canonical form (sorted by EUI).
+func (d *FrameOutputBuffer) VerifDump() []string {
+	d.mutex.Lock()
+	defer d.mutex.Unlock()
+	var out []string
+	for eui, fd := range d.frameData {
+		out = append(out, fmt.Sprintf("%s mt=%d ack=%v port=%d payload=%x cmds=%d ja=%x/%d", eui, fd.MType, fd.ACK, fd.Port, fd.Payload,
+			fd.MACCommands.Size(), fd.JoinAcceptPayload.AppNonce, fd.JoinAcceptPayload.DevAddr.ToUint32()))
+	}
+	sort.Strings(out)
+	return out
+}
